@@ -159,6 +159,13 @@ func ruleHash(state *core.BuildState, target *core.BuildTarget, runtime bool) []
 	for _, hsh := range target.Hashes {
 		h.Write([]byte(hsh))
 	}
+	if len(target.Hashes) > 0 {
+		// Which algorithms the declared hashes may be verified with decides whether the outputs are acceptable,
+		// so outputs verified under one set must not be taken as up to date under another.
+		for _, algo := range state.Config.Build.HashCheckers {
+			h.Write([]byte(algo))
+		}
+	}
 	for _, source := range target.AllSources() {
 		h.Write([]byte(source.String()))
 	}
